@@ -65,6 +65,9 @@ def repack(
                   include_logs=not strip_logs,
                   include_tables=True,
                   meta_prefix="")
+        # An .rtdc file must have an "events" group, even if it is empty
+        # (e.g. when all features are provided by basins).
+        hc.require_group("events")
 
     # Finally, rename temp to out
     path_temp.rename(path_out)
